@@ -747,6 +747,10 @@ func (w *World) CanonAtCallers(fn *ssa.Function, v ssa.Value) []string {
 // helper parameter, the form with one-expression helpers inlined (used when a
 // condition inside the helper is compared with helpers inlined).
 func (w *World) noteInlinedTwin(plain string, v ssa.Value) {
+	if w.argVal == nil {
+		w.argVal = map[string]ssa.Value{}
+	}
+	w.argVal[plain] = v
 	if w.inlineHelpers || !strings.Contains(plain, "(") {
 		return
 	}
